@@ -80,13 +80,11 @@ func (g *vC17Gate) open() {
 }
 
 type vC17Rec struct {
-	tw       *vTraceWriter
-	scn      atomic.Value // string
-	gate     vC17Gate
-	mu       sync.Mutex
-	counts   map[string]int
-	lastTick []any
-	hasGate  atomic.Bool
+	tw     *vTraceWriter
+	scn    atomic.Value // string
+	gate   vC17Gate
+	mu     sync.Mutex
+	counts map[string]int
 }
 
 func (r *vC17Rec) sink(ev map[string]any) {
@@ -103,12 +101,6 @@ func (r *vC17Rec) sink(ev map[string]any) {
 	r.tw.Emit(out)
 	r.mu.Lock()
 	r.counts[name]++
-	if name == "Tick" {
-		r.lastTick = nil
-		if ret, ok := ev["ret"].([][3]uint64); ok && len(ret) > 0 {
-			r.lastTick = []any{ret[0]}
-		}
-	}
 	r.mu.Unlock()
 	r.gate.pass(ev)
 }
@@ -255,10 +247,7 @@ func vC17Intra(t *testing.T, rec *vC17Rec, attempt int) bool {
 	vC17Await(t, "a_send on the passive side", func() bool { return vC17Has(passive, "a_send") })
 	vC17Replication(active, "r"+scn, "stop")
 	active.WaitForReplicationStatus("r"+scn, db.ReplicationStateStopped)
-	rec.mu.Lock()
-	got := rec.lastTick != nil
-	rec.mu.Unlock()
-	return windowReached && got
+	return windowReached // retried only if the interleaving itself could not be set up; what the tick returned is TLC's business
 }
 
 // scenario "cross": a tick after a LATER batch's callbacks and before an EARLIER batch's callbacks
@@ -303,9 +292,6 @@ func vC17Cross(t *testing.T, rec *vC17Rec, attempt int) bool {
 			"x1_on_passive": vC17Has(passive, "x1")})
 		vC17Tick(t, rec, ck, "later-batch-registered-earlier-held")
 	}
-	rec.mu.Lock()
-	got := rec.lastTick != nil
-	rec.mu.Unlock()
 
 	// the operator stops the replication while batch 1's handler still has not run, and starts it again
 	vC17Replication(active, "r"+scn, "stop")
@@ -320,5 +306,5 @@ func vC17Cross(t *testing.T, rec *vC17Rec, attempt int) bool {
 	rec.note(map[string]any{"ev": "Outcome", "barrier_x3_on_passive": barrier, "x1_on_passive": vC17Has(passive, "x1"), "x2_on_passive": vC17Has(passive, "x2")})
 	vC17Replication(active, "r"+scn, "stop")
 	active.WaitForReplicationStatus("r"+scn, db.ReplicationStateStopped)
-	return windowReached && got
+	return windowReached
 }
